@@ -81,6 +81,13 @@ def _numeric(e):
 
 
 class _Canon(ast.NodeTransformer):
+    def visit_Call(self, node):
+        self.generic_visit(node)
+        # super(C, self) == super() inside a method of C
+        if isinstance(node.func, ast.Name) and node.func.id == 'super' and len(node.args) == 2:
+            return ast.Call(func=node.func, args=[], keywords=[])
+        return node
+
     def visit_BinOp(self, node):
         parts = strparts(node)
         if parts is not None and len(parts) > 1 and any(isinstance(x, str) for x in parts):
